@@ -315,6 +315,118 @@ def adoption_history(ctx):
                              "(bodies entered: %r)" % (label, cls.__name__, tb, to if own_pre else "absent", want, got, entered))
 
 
+def concurrent_history(ctx):
+    """Two callers of one function in contexts COPIED from a parent context that has (or has not) already executed contracted
+    code - what asyncio does for every task and `copy_context().run` does in worker threads: while the first caller is
+    suspended inside its precondition the second caller arrives with an argument the precondition forbids. Its body must
+    not run. Emulated tasks (each step of a coroutine runs in its own Context, as asyncio does) and real threads."""
+    import contextvars
+    import threading
+    import icontract
+    from vf import vrt
+
+    for driver in ("tasks", "threads"):
+        for history in (False, True):
+            for first_ok in (True, False):
+                entered = []
+                if driver == "tasks":
+                    async def pre(x):
+                        await vrt.Yield("in-pre")
+                        return x > 0
+
+                    @icontract.require(pre)
+                    async def f(x):
+                        entered.append(x)
+                        return x
+
+                    @icontract.require(lambda: True)
+                    async def warm():
+                        return 0
+
+                    parent = contextvars.copy_context()
+                    if history:
+                        def run_warm():
+                            c = warm()
+                            try:
+                                c.send(None)
+                            except StopIteration:
+                                pass
+                        parent.run(run_warm)
+                    c1, c2 = parent.run(contextvars.copy_context), parent.run(contextvars.copy_context)
+                    a1, a2 = (1 if first_ok else -1), -2
+                    co1, co2 = f(a1), f(a2)
+                    outs = {}
+
+                    def step(name, c, co):
+                        try:
+                            c.run(co.send, None)
+                            return False
+                        except StopIteration as e:
+                            outs[name] = "returned %r" % (e.value,)
+                        except icontract.ViolationError:
+                            outs[name] = "rejected"
+                        except BaseException as e:  # noqa
+                            outs[name] = "%s: %s" % (type(e).__name__, e)
+                        return True
+
+                    step("first", c1, co1)   # suspended inside its precondition
+                    done2 = step("second", c2, co2)
+                    while not done2:
+                        done2 = step("second", c2, co2)
+                    while not step("first", c1, co1):
+                        pass
+                else:
+                    gate, arrived = threading.Event(), threading.Event()
+
+                    def pre(x):
+                        if x in (1, -1):  # the first caller waits inside its precondition
+                            arrived.set()
+                            gate.wait(10)
+                        return x > 0
+
+                    @icontract.require(pre)
+                    def f(x):
+                        entered.append(x)
+                        return x
+
+                    @icontract.require(lambda: True)
+                    def warm():
+                        return 0
+
+                    parent = contextvars.copy_context()
+                    if history:
+                        parent.run(warm)
+                    c1, c2 = parent.run(contextvars.copy_context), parent.run(contextvars.copy_context)
+                    a1, a2 = (1 if first_ok else -1), -2
+                    outs = {}
+
+                    def call(name, c, a):
+                        try:
+                            outs[name] = "returned %r" % (c.run(f, a),)
+                        except icontract.ViolationError:
+                            outs[name] = "rejected"
+                        except BaseException as e:  # noqa
+                            outs[name] = "%s: %s" % (type(e).__name__, e)
+
+                    t1 = threading.Thread(target=call, args=("first", c1, a1))
+                    t1.start()
+                    arrived.wait(10)
+                    t2 = threading.Thread(target=call, args=("second", c2, a2))
+                    t2.start()
+                    t2.join(10)
+                    gate.set()
+                    t1.join(10)
+                want = {"first": "returned 1" if first_ok else "rejected", "second": "rejected"}
+                label = "%s, parent context %s contracted code before the copies, first caller %s" % (
+                    driver, "ran" if history else "ran no", "accepted" if first_ok else "rejected")
+                ctx.case(["concurrent-history", driver, history, first_ok], True, sample={"directed": label, "outcomes": dict(outs)})
+                ctx.count("directed:concurrent-history")
+                if outs != want or sorted(entered) != ([1] if first_ok else []):
+                    ctx.fail("concurrent-history|%s|%s" % (driver, "history" if history else "fresh"), {"directed": "concurrent-history"},
+                             "%s: expected %r with the body entered for %r only; got %r, bodies entered with %r" % (
+                                 label, want, [1] if first_ok else [], outs, entered))
+
+
 def directed(ctx, only=None):
     """The enumerated two-base matrix of C04 (who provides the member with/without preconditions, in both orders),
     judged with C01's projection; plus the directed call shapes."""
@@ -323,6 +435,7 @@ def directed(ctx, only=None):
     directed_shapes(ctx)
     recursion_matrix(ctx)
     adoption_history(ctx)
+    concurrent_history(ctx)
     for case in c04.multi_base_matrix():
         D.run_one(ctx, case, JUDGE, nontrivial=nontrivial)
     for case in c04.diamond_matrix():  # which arm's override (and precondition) the bottom class gets
